@@ -200,13 +200,21 @@ func (f *TerraformFetcher) Directors() ([]*snippet.Director, error) {
 	var d []*snippet.Director
 	for _, s := range f.filterService() {
 		for _, director := range s.Directors {
-			d = append(d, &snippet.Director{
+			dd := &snippet.Director{
 				Type:     director.Type,
 				Name:     director.Name,
 				Backends: director.Backends,
-				Retries:  *director.Retries,
-				Quorum:   *director.Quorum,
-			})
+				// Terraform provider's default
+				Quorum: 75,
+			}
+			// retries and quorum are optional attributes, absent when the plan does not know them
+			if director.Retries != nil {
+				dd.Retries = *director.Retries
+			}
+			if director.Quorum != nil {
+				dd.Quorum = *director.Quorum
+			}
+			d = append(d, dd)
 		}
 	}
 	return d, nil
